@@ -173,4 +173,24 @@ func init() {
 			return hasAny(key, "Tempo", "tempo", "onSpan")
 		}),
 	}
+	properties["C05"] = &Property{
+		Rules: []string{"F1", "F2", "F3", "A8"},
+		Explanation: "Decides crash/hang containment on the ingest side for the enumerated hazard kinds, for every request at once: (F1) no library call that panics on an argument condition (FixedString append of a wrong-size value, hex decode into a too-small buffer) and no integer division by an untested value is reachable from a goroutine or handler of the writer without crossing a frame that effectively recovers; " +
+			"(F3) each parser goroutine defers the recovering method first and closes its response channel exactly once on every path; (F2) no loop on the ingest path can have a neutral arithmetic step; (A8) snappy bodies are size-checked before decompression.",
+		NotCovered:  "Nil dereferences, index/slice bounds and other run-time panics in handler goroutines (net/http contains those per connection; in the parser goroutines F3's recover contains them); memory exhaustion; slow inputs; goroutine leaks on client disconnect; batch corruption by partially appended rows after a recovered panic.",
+		Assumptions: []string{"Go semantics of recover (effective only when called directly by the deferred function)", "ch-go ColFixedStr.Append and encoding/hex.Decode behaviour as read from their sources", "function values passed to dependencies are called by them in the caller's goroutine"},
+		Filter: keepIf(func(rule, key string) bool {
+			return rule != "F1" && rule != "F2" || strings.Contains(key, "writer/")
+		}),
+	}
+	properties["C12"] = &Property{
+		Rules: []string{"F1", "F2"},
+		Explanation: "Decides crash/hang containment on the read side for the enumerated hazard kinds: (F1) every integer division by an untested value and every hex decode into a buffer not provably large enough that is reachable from a read handler or from a goroutine started for a query crosses an effectively recovering frame (handlers: deferred tamePanic; pipeline goroutines: deferred shared.TamePanic called directly); " +
+			"(F2) no loop on the query path advances by a step that can be neutral (zero step / zero start value).",
+		NotCovered:  "Goroutine termination when the database fails midway or the client goes away (needs a channel-protocol analysis); other panic kinds in goroutines without recover; blocking sends; resource exhaustion.",
+		Assumptions: []string{"Go semantics of recover", "net/http recovers handler panics per connection (so an unprotected handler means a dropped connection, not a process exit)"},
+		Filter: keepIf(func(rule, key string) bool {
+			return strings.Contains(key, "reader/")
+		}),
+	}
 }
